@@ -106,7 +106,7 @@ def main(argv=None):
     # 3. bounded-exhaustive tier ------------------------------------------------
     if not harness_errors and hasattr(check, 'enumerate_cases') and budget.get('exhaustive', True):
         n = args.procs
-        with ctx.Pool(n) as pool:
+        with ctx.Pool(n, maxtasksperchild=1) as pool:
             outs = pool.map(core._worker_enumerate, [(cid, args.tier, i, n, 5) for i in range(n)])
         for kind, payload in outs:
             if kind == 'ok':
@@ -119,7 +119,7 @@ def main(argv=None):
         shards = budget.get('shards', args.procs)
         per = max(1, int(budget['random'] * args.scale) // shards)
         sb = budget.get('shrink_s', 20 if args.tier == 'quick' else 90)
-        with ctx.Pool(min(shards, args.procs)) as pool:
+        with ctx.Pool(min(shards, args.procs), maxtasksperchild=1) as pool:
             outs = pool.map(core._worker_random, [(cid, args.tier, seed, i, per, sb) for i in range(shards)])
         for kind, payload in outs:
             if kind == 'ok':
